@@ -438,6 +438,7 @@ func checkSupplyGuard(w *World, r *Report, tm *Terms, tree map[*ssa.Function]boo
 		}
 		// the guard: a comparison against the supply whose left operand is Add(total, q) with q the accumulated quantity
 		guardQ := map[ssa.Value]bool{}
+		supplyParams := map[*ssa.Parameter]bool{}
 		isMatchedAmountLoad := func(v ssa.Value) bool {
 			u, ok := v.(*ssa.UnOp)
 			if !ok || u.Op != token.MUL {
@@ -464,8 +465,33 @@ func checkSupplyGuard(w *World, r *Report, tm *Terms, tree map[*ssa.Function]boo
 				}
 				if add, ok := c.Call.Args[0].(*ssa.Call); ok && callKey(&add.Call) == mathPath+".Int.Add" && len(add.Call.Args) == 2 && isMatchedAmountLoad(add.Call.Args[0]) {
 					guardQ[add.Call.Args[1]] = true
+					supplyParams[c.Call.Args[1].(*ssa.Parameter)] = true
 				}
 			}
+		}
+		// SUPPLY-SRC: what every caller passes as the supply is the auction's offered amount
+		for p := range supplyParams {
+			idx := -1
+			for i, q := range fn.Params {
+				if q == p {
+					idx = i
+				}
+			}
+			var bad []string
+			sites := 0
+			for _, cs := range w.callSitesOf(fn) {
+				if !tree[cs.Parent()] && (cs.Parent().Parent() == nil || !tree[cs.Parent().Parent()]) {
+					continue
+				}
+				sites++
+				at := tm.OperandAt(tm.Root(cs.Parent()), cs, cs.Common().Args[idx])
+				if !isSupply(at) {
+					bad = append(bad, fmt.Sprintf("%s passes %s", w.instrPos(cs), at.String()))
+				}
+			}
+			r.Check(len(bad) == 0 && sites > 0, "SUPPLY-GUARD", fnName(fn)+":supply-is-offered-amount", w.pos(fn.Pos()),
+				"the supply the matching is bounded by is the auction's offered amount (SellingCoin.Amount) at every call site",
+				strings.Join(bad, "; ")+": the bound is something other than what the auctioneer offered (e.g. an account balance anyone can top up)")
 		}
 		for i, s := range ss {
 			construct := fmt.Sprintf("%s:MatchedAmount+=#%d", fnName(fn), i+1)
